@@ -963,7 +963,7 @@ def oracle_validation(rng, n, stats):
         which, ts, L, R, lk, rk, la, ra, t, kw = gen_join_case(rng, stats, n_jobs_choices=(1,))
         kw['allow_missing'] = False
         kind = rng.choice(['not_frame_l', 'not_frame_r', 'bad_tok', 'bad_key', 'bad_attr', 'bad_out', 'numeric_attr', 'dup_key', 'nan_key',
-                           'thr_low', 'thr_high', 'bad_op', 'ed_nonqgram', 'valid', 'valid'])
+                           'thr_low', 'thr_high', 'thr_nan', 'bad_op', 'ed_nonqgram', 'nonstring_value', 'id_clash', 'valid', 'valid'])
         L2, R2, ts2, t2, kw2, lk2, la2 = L, R, ts, t, dict(kw), lk, la
         expect = None
         if kind == 'not_frame_l':
@@ -1003,6 +1003,20 @@ def oracle_validation(rng, n, stats):
             if which in ('edit_distance', 'overlap'):
                 continue
             t2, expect = rng.choice([1.0000000000000002, 1.5, 2]), AssertionError
+        elif kind == 'thr_nan':
+            t2, expect = float('nan'), AssertionError       # NaN lies outside every measure's range
+        elif kind == 'nonstring_value':
+            # a present join value that is not a string (object column): the documented exception for a wrong type
+            if len(R) < 1 or str(R[ra].dtype) != 'object':
+                continue
+            R2 = R.copy()
+            R2[ra] = pd.Series([rng.choice([5, 2.5, True])] + list(R2[ra].iloc[1:]), dtype=object, index=R2.index)
+            expect = TypeError
+        elif kind == 'id_clash':
+            # VALID arguments whose output header contains the name '_id' (known finding K7: ValueError at the very end)
+            kw2['l_out_prefix'], kw2['r_out_prefix'] = ('_', 'r_') if lk == 'id' else ('l_', 'r_')
+            if lk != 'id':
+                continue
         elif kind == 'bad_op':
             kw2['comp_op'] = rng.choice(['>=', '>', '!=']) if which == 'edit_distance' else rng.choice(['<=', '<', '!=', '=='])
             expect = AssertionError
@@ -1050,13 +1064,13 @@ def oracle_validation(rng, n, stats):
             if k == 'bad_measure':
                 cls(ts.obj, 'TFIDF', 0.5)
             elif k == 'bad_thr':
-                cls(ts.obj, rng.choice(['JACCARD', 'COSINE', 'DICE']), rng.choice([0, -0.1, 1.2]))
+                cls(ts.obj, rng.choice(['JACCARD', 'COSINE', 'DICE']), rng.choice([0, -0.1, 1.2, float('nan')]))
             elif k == 'ed_nonqgram':
                 cls(TokSpec('ws').obj, 'EDIT_DISTANCE', 2)
             elif k == 'bad_tok':
                 cls('x', 'JACCARD', 0.5)
             elif k == 'ov_thr':
-                OverlapFilter(ts.obj, rng.choice([0, -1]))
+                OverlapFilter(ts.obj, rng.choice([0, -1, float('nan')]))
             else:
                 OverlapFilter(ts.obj, 1, rng.choice(['<', '<=', '!=']))
             v.append(viol('C15', 'filter constructor accepted an invalid argument (%s)' % k, {'entry': 'ctor', 'kind': k, 'class': cls.__name__}))
